@@ -100,3 +100,15 @@ pub proof fn lemma_dead_end_out(ra: Rc, ma: LzS, wa: Win, rb: Rc, mb: LzS, wb: W
     assert(sp_run(rcw(rcw(rb, rb.inp + x), (rb.inp + x) + g), mb, wb, size) is None);
     assert(run_out(rcw(ra, ra.inp + g2), ma, wa, size) == run_out(rcw(rb, rb.inp + g2), mb, wb, size));
 }
+
+/// a dead end stays one when more of the continuation is already known
+pub proof fn lemma_dead_end_ext(rc: Rc, m: LzS, w: Win, size: Option<u64>, x: Seq<u8>)
+    requires dead_end(rc, m, w, size),
+    ensures dead_end(rcw(rc, rc.inp + x), m, w, size),
+{
+    reveal(dead_end);
+    assert forall|g: Seq<u8>| #[trigger] sp_run(rcw(rcw(rc, rc.inp + x), (rc.inp + x) + g), m, w, size) is None by {
+        assert((rc.inp + x) + g =~= rc.inp + (x + g));
+        assert(sp_run(rcw(rc, rc.inp + (x + g)), m, w, size) is None);
+    }
+}
